@@ -116,10 +116,10 @@ func unquoteString(b []byte) ([]byte, int) {
 		if i >= len(b) {
 			return b, len(b)
 		}
-		if b[i] == '\r' || b[i] == '\n' {
-			return b[0:i], i
-		}
-		if b[i] == '"' {
+		if b[i] == '\r' || b[i] == '\n' || b[i] == '"' {
+			if i == 0 {
+				return nil, 0
+			}
 			return b[0:i], i
 		} else if b[i] == '\\' || b[i] >= utf8.RuneSelf {
 			break
@@ -137,12 +137,19 @@ func unquoteString(b []byte) ([]byte, int) {
 		if str == "" {
 			break
 		}
+		if r, size := utf8.DecodeRuneInString(str); r == utf8.RuneError && size == 1 {
+			// invalid UTF-8: UnquoteChar would turn the byte into a three-byte U+FFFD
+			break
+		}
 		ch, _, tail, err = strconv.UnquoteChar(str, '"')
 		if err != nil {
 			break
 		}
 		res = append(res, string(ch)...)
 		str = tail
+	}
+	if len(str) == len(b) {
+		return nil, 0
 	}
 	return res, len(b) - len(str)
 }
